@@ -268,3 +268,51 @@ def curie_probes(draw, records, delimiter: str, *, extra: int = 8):
             out.append(draw(st.text(UNICODE, max_size=6)))
     out.extend(["", delimiter, "nodelim" if delimiter not in "nodelim" else "x"])
     return out
+
+
+@st.composite
+def scalar_cases(draw, tier="quick", *, prefix_free=None, ambiguous=False, max_records=None):
+    """spec + CURIE-ish strings + URI-ish strings, for the scalar-API properties (C03, C06, C07)."""
+    big = tier == "thorough"
+    d = draw(delimiters())
+    pf = draw(st.booleans()) if prefix_free is None else prefix_free
+    mr = max_records or (8 if big else 5)
+    recs = draw(record_sets(delimiter=d, max_records=mr, max_syn=5 if big else 4, prefix_free=pf, allow_empty_uri=not pf))
+    if ambiguous and recs:
+        # make strings that are CURIEs and URIs at once likely: a URI prefix equal to prefix+delimiter(+text),
+        # and a CURIE prefix equal to the scheme of a URI prefix
+        taken_u = set(all_uri_prefixes(recs))
+        taken_p = set(all_prefixes(recs))
+        for _ in range(draw(st.integers(1, 3))):
+            r = draw(st.sampled_from(recs))
+            mode = draw(st.integers(0, 3))
+            if mode == 0:
+                src = draw(st.sampled_from(recs))
+                cand = draw(st.sampled_from([src["prefix"], *src["prefix_synonyms"]])) + d + draw(st.sampled_from(["", "a", "/"]))
+                ok = cand not in taken_u and not (pf and any(cand.startswith(k) or k.startswith(cand) for k in taken_u))
+                if ok:
+                    r["uri_prefix_synonyms"].append(cand)
+                    taken_u.add(cand)
+            elif mode == 1 and d == ":":
+                cand = "http"
+                ups = "http://" + draw(st.sampled_from(["h/", "x/a_", ""]))
+                if cand not in taken_p:
+                    r["prefix_synonyms"].append(cand)
+                    taken_p.add(cand)
+                if ups not in taken_u and not (pf and any(ups.startswith(k) or k.startswith(ups) for k in taken_u)):
+                    draw(st.sampled_from(recs))["uri_prefix_synonyms"].append(ups)
+                    taken_u.add(ups)
+            elif mode == 2:
+                # a URI prefix that is exactly another record's CURIE prefix + delimiter
+                src = draw(st.sampled_from(recs))
+                cand = src["prefix"] + d
+                if cand not in taken_u and not (pf and any(cand.startswith(k) or k.startswith(cand) for k in taken_u)):
+                    r["uri_prefix_synonyms"].append(cand)
+                    taken_u.add(cand)
+    cur = draw(curie_probes(recs, d, extra=10 if big else 6))
+    uri = draw(uri_probes(recs, extra=8 if big else 5, delimiter=d))
+    # recognised URIs written through every registered URI prefix, with identifiers that start with other prefixes' tails
+    ups = all_uri_prefixes(recs)
+    for p in ups[: 8 if big else 5]:
+        uri.append(p + draw(identifiers(d)))
+    return {"spec": {"delimiter": d, "records": recs}, "curies": cur, "uris": uri, "prefix_free_requested": pf}
